@@ -202,6 +202,14 @@ deriving DecidableEq, Repr
 /-- what `memlimit_walk` adds for one node -/
 def walkCharge (cfg : Cfg) (size : Nat) : Nat := if cfg.fixWalk then totalSize size else size
 
+/-- "sync memlimit flags" of `memlimit_walk`: new state and the op passed to the children -/
+def walkSync (s : State) (t : Id) (o : Obj) : WOp → State × WOp
+  | .set => (s.modify t fun x => { x with useLim := true }, WOp.set)
+  | .clear =>
+    if o.hasLim then (s, WOp.none)
+    else (s.modify t fun x => { x with useLim := false }, WOp.clear)
+  | .none => (s, WOp.none)
+
 /-- `memlimit_walk(t, depth, op)`: syncs the USE flag, returns the counted bytes.
 (The PENDING marks it sets and clears as cycle guard are not modelled.) -/
 def walk (cfg : Cfg) : Nat → State → Id → WOp → State × Nat
@@ -212,17 +220,11 @@ def walk (cfg : Cfg) : Nat → State → Id → WOp → State × Nat
     | some o =>
       if o.pending then (s, 0)
       else
-        let (s1, op1) : State × WOp :=
-          match op with
-          | .set => (s.modify t fun x => { x with useLim := true }, WOp.set)
-          | .clear =>
-            if o.hasLim then (s, WOp.none)
-            else (s.modify t fun x => { x with useLim := false }, WOp.clear)
-          | .none => (s, WOp.none)
+        let p := walkSync s t o op
         let r := o.children.foldl
           (fun (acc : State × Nat) c =>
-            let r := walk cfg f acc.1 c op1
-            (r.1, acc.2 + r.2)) (s1, 0)
+            let r := walk cfg f acc.1 c p.2
+            (r.1, acc.2 + r.2)) (p.1, 0)
         (r.1, r.2 + walkCharge cfg o.size)
 
 def hasUse (s : State) (p : Option Id) : Bool :=
@@ -349,6 +351,40 @@ def childrenOf (s : State) (o : Id) : List Id :=
   | some ob => ob.children
   | none => []
 
+/-- start of an accepted `_talloc_free`: FLAG_PENDING set, destructor has run (a TRef's
+`ref_destructor` takes it out of its target's `ref_list`), `list_del(&t->node)` -/
+def freeBegin (s : State) (o : Id) (ob : Obj) (d' : Dtor) (logged : Bool) : State :=
+  let s0 := s.modify o fun x => { x with dtor := d', pending := true }
+  let s0 := if logged then s0.addLog (.dtorOk o) else s0
+  let s1 := match ob.kind with
+    | .ref tgt => s0.modify tgt fun x => { x with refs := x.refs.erase o }
+    | _ => s0
+  detach s1 o
+
+/-- end of `_talloc_free` after `free_children(ptr, true)`: `cx_free`, un-charge the parent -/
+def freeEnd (cfg : Cfg) (s3 : State) (o : Id) : State × Int :=
+  match s3.get o with
+  | none => (s3, 0)
+  | some ob3 =>
+    -- ghost assertion: free_children(ptr, true) left nothing behind
+    let s3 := if ob3.children.isEmpty then s3 else s3.setStuck
+    let s4 := (s3.remove o).addLog (.release o)
+    let s5 := (applyLim cfg s4.fuel s4 ob3.parent (-(totalSize ob3.size : Int)) false).getD s4
+    (s5, 0)
+
+/-- `_talloc_unlink`, "main parent but refs": the first reference `r` gives the new parent -/
+def promoteMove (cfg : Cfg) (s : State) (o : Id) (ob : Obj) (rb : Obj) (rest : List Id)
+    (tparent : Option Id) : State :=
+  let s1 := s.modify o fun x => { x with refs := rest }
+  let s2 := detach s1 o
+  let s3 := s2.modify o fun x => { x with parent := rb.parent }
+  let s4 := addChild s3 rb.parent o (isRef ob)
+  if cfg.fixPromote then moveMemlimit cfg s4 o rb.parent tparent else s4
+
+/-- ghost assertion of the loop: the element the cursor stands on is still in the list -/
+def loopEnter (s : State) (o c : Id) : State :=
+  if (childrenOf s o).contains c then s else s.setStuck
+
 /-- `_talloc_free`, `_talloc_unlink`, `free_children`; result code `0` / `-1` -/
 def run (cfg : Cfg) : Nat → State → Call → State × Int
   | 0, s, _ => (s.setOof, 0)
@@ -373,22 +409,8 @@ def run (cfg : Cfg) : Nat → State → Call → State × Int
         | (false, d', _) =>
           ((s.modify o fun x => { x with dtor := d' }).addLog (.dtorRefuse o), -1)
         | (true, d', logged) =>
-          let s0 := s.modify o fun x => { x with dtor := d', pending := true }
-          let s0 := if logged then s0.addLog (.dtorOk o) else s0
-          -- ref_destructor: list_del(&ref->ref_node)
-          let s1 := match ob.kind with
-            | .ref tgt => s0.modify tgt fun x => { x with refs := x.refs.erase o }
-            | _ => s0
-          let s2 := detach s1 o
-          let (s3, _) := run cfg f s2 (.loop o true (childrenOf s2 o).head?)
-          match s3.get o with
-          | none => (s3, 0)
-          | some ob3 =>
-            -- ghost assertion: free_children(ptr, true) left nothing behind
-            let s3 := if ob3.children.isEmpty then s3 else s3.setStuck
-            let s4 := (s3.remove o).addLog (.release o)
-            let s5 := (applyLim cfg s4.fuel s4 ob3.parent (-(totalSize ob3.size : Int)) false).getD s4
-            (s5, 0)
+          let s2 := freeBegin s o ob d' logged
+          freeEnd cfg (run cfg f s2 (.loop o true (childrenOf s2 o).head?)).1 o
   | f + 1, s, .unlink ctx o =>
     match s.get o with
     | none => (s, -1)
@@ -406,27 +428,20 @@ def run (cfg : Cfg) : Nat → State → Call → State × Int
           -- main parent but refs: first ref gives the new parent
           match s.get r with
           | none => (s, -1)
-          | some rb =>
-            let s1 := s.modify o fun x => { x with refs := rest }
-            let s2 := detach s1 o
-            let s3 := s2.modify o fun x => { x with parent := rb.parent }
-            let s4 := addChild s3 rb.parent o (isRef ob)
-            let s5 := if cfg.fixPromote then moveMemlimit cfg s4 o rb.parent tparent else s4
-            run cfg f s5 (.free r)
+          | some rb => run cfg f (promoteMove cfg s o ob rb rest tparent) (.free r)
   | f + 1, s, .loop o freeName cur =>
     match cur with
     | none => (s, 0)
     | some c =>
-      -- ghost assertion: the element the cursor stands on is still in the list
-      let s := if (childrenOf s o).contains c then s else s.setStuck
+      let s := loopEnter s o c
       let tmp := succOf (childrenOf s o) c
       match s.get c with
       | none => (s, 0)
       | some cb =>
         if !freeName && isLimit cb then run cfg f s (.loop o freeName tmp)
         else
-          let (s1, rc) := run cfg f s (.unlink (some o) c)
-          let s2 := if rc ≠ 0 then throwChild cfg s1 c else s1
+          let r := run cfg f s (.unlink (some o) c)
+          let s2 := if r.2 ≠ 0 then throwChild cfg r.1 c else r.1
           run cfg f s2 (.loop o freeName tmp)
 
 /-! ## public operations -/
